@@ -20,6 +20,16 @@ FragileValue(o) ==
     \E d \in 1..Len(o.doc.dets) : \E it \in {ItemsOf(o.doc.dets[d].body)[k] : k \in 1..Len(ItemsOf(o.doc.dets[d].body))} :
         \E k \in 1..Len(it.vals) : it.vals[k].t = "s" /\
             LET p == ParseStr(it.vals[k].s) IN \E i \in 1..(Len(p) - 1) : p[i] = CH_BSL /\ NeedsGuard(p[i + 1])
+\* ... or in which the replacement itself produces that adjacency (what is left of the value ends in a backslash and a
+\* modifier's wildcard follows, or the replaced text stood between a backslash and a wildcard)
+FragileAfterReplace(o) ==
+    \E d \in 1..Len(o.doc.dets) : \E it \in {ItemsOf(o.doc.dets[d].body)[k] : k \in 1..Len(ItemsOf(o.doc.dets[d].body))} :
+        \E k \in 1..Len(it.vals) : it.vals[k].t = "s" /\
+            \E j \in 1..Len(Flatten(o.Ts)) : Flatten(o.Ts)[j].type = "replace" /\
+                LET p == ParseStr(it.vals[k].s)
+                    q == ReplaceIn(p, Flatten(o.Ts)[j].s1, Flatten(o.Ts)[j].s2)
+                IN  q # p /\ (\/ \E i \in 1..(Len(q) - 1) : q[i] = CH_BSL /\ NeedsGuard(q[i + 1])
+                              \/ (q # <<>> /\ q[Len(q)] = CH_BSL /\ \E m \in 1..Len(it.chain) : it.chain[m] \in {N_contains, N_startswith}))
 HasReplace(Ts) == \E k \in 1..Len(Flatten(Ts)) : Flatten(Ts)[k].type = "replace"
 
 \* recorded deviation: replace_string turns every number in its scope into a string (a timestamp part
@@ -49,7 +59,7 @@ Clauses(o) ==
     ELSE LET g == ParseQuery(o.ret.out[1], PREC) IN
          IF ~g.ok THEN <<C("QueryUnreadable")>>
          ELSE IF ~QEquiv(want.e, g.e) THEN
-              (IF HasReplace(o.Ts) /\ FragileValue(o) THEN <<D("Dev_PlainBackslashBeforeSpecial")>>
+              (IF HasReplace(o.Ts) /\ (FragileValue(o) \/ FragileAfterReplace(o)) THEN <<D("Dev_PlainBackslashBeforeSpecial")>>
                ELSE IF HasReplace(o.Ts) /\ StringifiedNumbers(want.e, g.e) THEN <<D("Dev_ReplaceStringStringifiesNumbers")>>
                ELSE IF o.identity THEN <<C("IdentityLeavesUnchanged:meaning")>>
                ELSE <<C("RewriteEq_" \o Flatten(o.Ts)[1].type)>>)
